@@ -9,7 +9,7 @@
    Part 2 is over Coq's real numbers (ln, exp the real functions).
    Part 3 is over MathComp matrices on an arbitrary realFieldType. *)
 Require Import ZArith QArith List Reals.
-Require Import BFL.Ops BFL.ListOps BFL.Density BFL.C01_Model BFL.C08_Model BFL.C08_Struct BFL.C08_Real.
+Require Import BFL.Ops BFL.ListOps BFL.Density BFL.C01_Model BFL.C08_Model BFL.C08_Struct BFL.C08_Real BFL.C08_Extract BFL.C08_TV.
 Import ListNotations.
 Close Scope Q_scope.
 Close Scope R_scope.
@@ -139,7 +139,45 @@ Theorem C08_pf_skip_correction (st : fstate O n) s sp :
   let st' := pf_step st (s, (sp, true)) in
   fs_corr st' = fs_pred st' /\ fs_valid st' = fs_valid st /\ fs_lik st' = fs_lik st.
 Proof. exact (pf_step_skip_correction O n st s sp). Qed.
+
+(* TIME-VARYING HISTORIES.  One GPFPrediction / GPFCorrection pair driven through a history in which the state
+   model (F_k, Q_k), the measurement model (size m_k, H_k, R_k, reading y_k), the scale of the likelihood and the
+   transition model (Ft_k, Qt_k) change from step to step: at step k every formula is in terms of the operands OF
+   STEP k (tv_step_formulae spells them out: (b) predicted beliefs F_k m, F_k P F_k^T + Q_k; (d) corrected beliefs the
+   Kalman correction with H_k, R_k, y_k; (e) likelihood values s_k N(y_k - H_k x_i; 0, R_k) at the drawn positions;
+   (f) positions m_i + L_i z_i and lw'_i = lw_i + ln(l_i+eps) + ln N(x_i; Ft_k xprev_i, Qt_k) - ln N(x_i; m_i, P_i)),
+   the shape guard being derived.  Nothing derived from the operands of an earlier step survives. *)
+Theorem C08_multi_step_time_varying (N : nat) (st : fstate O n) (ps : list (tv_ops O n)) (k : nat) d :
+  length (fs_pred st) = N -> length (fs_corr st) = N -> k < length ps ->
+  tv_step_formulae O n N (tv_run st (firstn k ps)) (nth k ps d) (tv_run st (firstn (S k) ps)).
+Proof. exact (tv_multi_step O n N st ps k d). Qed.
+
+(* the only memory is the state (buffers, valid_likelihood_, likelihood_): histories that reach the same state
+   and continue with the same operands agree, whatever the operands of their earlier steps were *)
+Theorem C08_no_hidden_memory (st : fstate O n) (h1 h1' h2 : list (tv_ops O n)) :
+  tv_run st h1 = tv_run st h1' -> tv_run st (h1 ++ h2) = tv_run st (h1' ++ h2).
+Proof. exact (tv_no_hidden_memory O n st h1 h1' h2). Qed.
+
+(* the trace of a history is the trace of its first part followed by the trace of the rest started in the state
+   then reached: the check runs the model one step at a time from the state reported before the step *)
+Theorem C08_stepwise_trace (st : fstate O n) (h1 h2 : list (step_in O n * (bool * bool))) :
+  pf_trace st (h1 ++ h2) = pf_trace st h1 ++ pf_trace (last (pf_trace st h1) st) h2.
+Proof. exact (pf_trace_app O n st h1 h2). Qed.
 End C08_structure.
+
+(* the entry point the driver executes takes a measurement size and a configuration record PER STEP; it is pf_trace
+   over the step inputs built from them, and with constant operands it is c08_trace *)
+Theorem C08_executed_trace_time_varying (Sc : SOps) sq (n m : nat) (cf : c08_cfg Sc) pred0 corr0 valid0 lik0
+        (steps : list (step_tuple Sc)) (tvsteps : list (nat * c08_cfg Sc * step_tuple Sc)) :
+  c08_trace Sc sq n m cf pred0 corr0 valid0 lik0 steps =
+    c08_trace_tv Sc sq n pred0 corr0 valid0 lik0 (map (fun s => (m, cf, s)) steps) /\
+  c08_trace_tv Sc sq n pred0 corr0 valid0 lik0 tvsteps =
+    map (fun st => (map (c08_to_tuple Sc sq n) (fs_pred st), map (c08_to_tuple Sc sq n) (fs_corr st), fs_valid st, fs_lik st))
+        (pf_trace (@mkFstate (c08_O Sc sq) n (map (c08_of_tuple Sc sq n) pred0) (map (c08_of_tuple Sc sq n) corr0) valid0 lik0)
+                  (map (fun mcs => c08_step_in Sc sq n (fst (fst mcs)) (snd (fst mcs)) (snd mcs)) tvsteps)).
+Proof.
+  exact (conj (c08_trace_const_is_tv Sc sq n m cf pred0 corr0 valid0 lik0 steps) (c08_trace_tv_is_pf_trace Sc sq n pred0 corr0 valid0 lik0 tvsteps)).
+Qed.
 
 (* ------------------------------------------------------------------ lifetime (World C)
    The random source, the validity flag and the likelihood model of a GPFCorrection across
@@ -413,6 +451,45 @@ Example C08_concrete_Q :
   && Qeq_bool (@quadform QM8 2 (@msub QM8 2 1 x0 m0) (@minv QM8 2 P)) (5#1) = true.
 Proof. vm_compute. reflexivity. Qed.
 
+(* a time-varying history over exact rationals: two steps on one particle in dimension 2, with different state
+   models, measurement matrices, noise covariances (R_0 = 1/2, R_1 = 2), readings and likelihood scales.  Checked on the
+   executable instance: after step 2 the likelihood is valid, its value is s_1 N(y_1 - H_1 x; 0, R_1) at the drawn
+   position and NOT the value obtained with the noise covariance R_0 of the first step; the predicted belief of step 2
+   is F_1 m, F_1 P F_1^T + Q_1 of the belief corrected at step 1. *)
+Example C08_time_varying_concrete_Q :
+  let P := [:: [:: 5#2; 1#1]; [:: 1#1; 4#1]]%Q in
+  let F0 := [:: [:: 1#1; 1#2]; [:: 0#1; 1#1]]%Q in
+  let F1 := [:: [:: 1#2; 0#1]; [:: 1#3; 1#1]]%Q in
+  let Q0 := [:: [:: 1#3; 0#1]; [:: 0#1; 1#3]]%Q in
+  let Q1 := [:: [:: 1#1; 1#4]; [:: 1#4; 2#1]]%Q in
+  let H0 := [:: [:: 1#1; 0#1]]%Q in
+  let H1 := [:: [:: 1#1; 2#1]]%Q in
+  let R0 := [:: [:: 1#2]]%Q in
+  let R1 := [:: [:: 2#1]]%Q in
+  let y0 := [:: [:: 3#1]]%Q in
+  let y1 := [:: [:: -1#1]]%Q in
+  let z0 := [:: [:: [:: 1#1]; [:: -2#1]]]%Q in
+  let z1 := [:: [:: [:: 1#3]; [:: 1#2]]]%Q in
+  let p0 := @mkTvOps QM8 2%nat 1%nat F0 Q0 H0 R0 y0 (1#1)%Q F0 Q0 z0 in
+  let p1 := @mkTvOps QM8 2%nat 1%nat F1 Q1 H1 R1 y1 (3#1)%Q F1 Q1 z1 in
+  let part := @mkParticle QM8 2%nat [:: [:: 1#1]; [:: 2#1]]%Q [:: [:: 1#2]; [:: -1#1]]%Q P (-1#2)%Q in
+  let junk := @mkParticle QM8 2%nat [:: [:: 9#1]; [:: 9#1]]%Q [:: [:: 8#1]; [:: 8#1]]%Q F0 (7#1)%Q in
+  let st0 := @mkFstate QM8 2%nat [:: junk] [:: part] false [::] in
+  let st1 := @tv_run QM8 2%nat st0 [:: p0] in
+  let st2 := @tv_run QM8 2%nat st0 [:: p0; p1] in
+  let c1 := List.nth 0%nat (fs_corr st1) junk in
+  let c2 := List.nth 0%nat (fs_corr st2) junk in
+  let pr2 := List.nth 0%nat (fs_pred st2) junk in
+  let lik_with R := smul QOps8 (3#1)%Q (@density QM8 1%nat (@lin_innovation QM8 1%nat (@lin_predicted QM8 1%nat 2%nat H1 (pstate c2)) y1) (@mzero QM8 1%nat 1%nat) R) in
+  fs_valid st2
+  && qmx_eqb [:: fs_lik st2] [:: [:: lik_with R1]]
+  && negb (qmx_eqb [:: fs_lik st2] [:: [:: lik_with R0]])
+  && qmx_eqb (pmean pr2) (@mmul QM8 2 2 1 F1 (pmean c1))
+  && qmx_eqb (pcov pr2) (@madd QM8 2 2 (@mmul QM8 2 2 2 (@mmul QM8 2 2 2 F1 (pcov c1)) (@mtr QM8 2 2 F1)) Q1)
+  && qmx_eqb (pstate pr2) (pstate c1)
+  && Nat.eqb (List.length (fs_corr st2)) 1%nat = true.
+Proof. vm_compute. reflexivity. Qed.
+
 Print Assumptions C08_predict_frame.
 Print Assumptions C08_predict_beliefs.
 Print Assumptions C08_correct_beliefs.
@@ -428,6 +505,10 @@ Print Assumptions C08_unscented_steps_shape_ok.
 Print Assumptions C08_gauss_lik_length.
 Print Assumptions C08_pf_trace_noskip.
 Print Assumptions C08_pf_skip_correction.
+Print Assumptions C08_multi_step_time_varying.
+Print Assumptions C08_no_hidden_memory.
+Print Assumptions C08_stepwise_trace.
+Print Assumptions C08_executed_trace_time_varying.
 Print Assumptions C08_draws_from_own_generator.
 Print Assumptions C08_draw_touches_own_generator_only.
 Print Assumptions C08_move_construct.
